@@ -51,16 +51,36 @@ class Result:
         return f"<result m{self.mid}#{self.n}>"
 
 
+def _tl_property(name, default):
+    def get(self):
+        d = self._tl.__dict__
+        if name not in d:
+            d[name] = default()
+        return d[name]
+
+    def set_(self, value):
+        self._tl.__dict__[name] = value
+
+    return property(get, set_)
+
+
 class Harness:
+    """Per-program instrumentation.  The per-call state (log, script position, results ...) is thread-local so
+    that several threads may drive the same program (C19)."""
+
+    log = _tl_property("log", list)
+    script = _tl_property("script", list)
+    i = _tl_property("i", int)
+    results = _tl_property("results", list)
+    raised = _tl_property("raised", list)
+    delegs = _tl_property("delegs", list)
+
     def __init__(self, prog):
+        import threading
+
+        self._tl = threading.local()
         self.prog = prog
-        self.log = []
-        self.script = []
-        self.i = 0
         self.nres = 0
-        self.results = []
-        self.raised = []
-        self.delegs = []
         self.on_enter = None
 
     def start(self, script):
